@@ -22,7 +22,7 @@ Requirements for the change:
 * Keep it small (typically 1-15 changed lines in 1-2 files). Do not touch files whose name starts with verif_ or that carry the build tag `verif`.
 {('* Choose a different mechanism / code site from these, which are already taken: ' + avoid) if avoid else ''}
 
-Also write a DEMONSTRATION: a new Go test file (or a small program/script driving the built binaries) that FAILS with your change and PASSES without it. Verify both directions yourself (use `git stash` or apply/revert your diff) and report the exact commands. Put the demonstration in new files only.
+Also write a DEMONSTRATION: a new Go test file (or a small program/script driving the built binaries) that FAILS with your change and PASSES without it. Verify both directions yourself (save your diff with `git diff > /tmp/<your-own-name>.patch`, then `git apply -R` / `git apply` it; NEVER use `git stash`: the stash is shared by all worktrees of the repository and other agents are working in sibling worktrees) and report the exact commands. Put the demonstration in new files only.
 
 Toolchain (no network; every shell call needs this):
   export PATH=/root/go/pkg/mod/golang.org/toolchain@v0.0.1-go1.25.0.linux-amd64/bin:$PATH GOTOOLCHAIN=local GOFLAGS=-mod=mod GOPROXY=off GOSUMDB=off
